@@ -31,10 +31,12 @@ Arche(kind) ==
   IF kind = "composite" THEN
     IF ArcheSet = "small"
     THEN {NoSlot, S("P", TRUE, TRUE, TRUE, FALSE, FALSE, "none"), S("P", TRUE, FALSE, TRUE, FALSE, FALSE, "none"),
+          S("P", TRUE, FALSE, TRUE, FALSE, FALSE, "drift"),
           S("none", TRUE, TRUE, FALSE, FALSE, FALSE, "none"), S("F", TRUE, TRUE, FALSE, FALSE, FALSE, "none")}
     ELSE {NoSlot,
           S("P", TRUE, TRUE, TRUE, FALSE, FALSE, "none"),      \* owned, equal
-          S("P", TRUE, FALSE, TRUE, FALSE, FALSE, "none"),     \* owned, drifted in an owned field
+          S("P", TRUE, FALSE, TRUE, FALSE, FALSE, "none"),     \* owned, the hook changed its mind (last-applied = live = the OLD desired content)
+          S("P", TRUE, FALSE, TRUE, FALSE, FALSE, "drift"),    \* owned, somebody edited an owned field (last-applied = desired, live differs)
           S("P", TRUE, TRUE, TRUE, FALSE, FALSE, "foreign"),   \* owned, equal, somebody added a foreign field
           S("P", TRUE, TRUE, TRUE, FALSE, FALSE, "status"),    \* owned, equal, status set by somebody
           S("P", TRUE, FALSE, TRUE, TRUE, FALSE, "none"),      \* owned, drifted, pending deletion
@@ -45,10 +47,12 @@ Arche(kind) ==
   ELSE
     IF ArcheSet = "small"
     THEN {NoSlot, S("P", TRUE, TRUE, TRUE, FALSE, TRUE, "none"), S("P", TRUE, FALSE, TRUE, FALSE, TRUE, "none"),
+          S("P", TRUE, FALSE, TRUE, FALSE, TRUE, "drift"),
           S("P", TRUE, TRUE, TRUE, FALSE, FALSE, "none")}
     ELSE {NoSlot,
           S("P", TRUE, TRUE, TRUE, FALSE, TRUE, "none"),       \* our attachment, equal
-          S("P", TRUE, FALSE, TRUE, FALSE, TRUE, "none"),      \* our attachment, drifted
+          S("P", TRUE, FALSE, TRUE, FALSE, TRUE, "none"),      \* our attachment, the hook changed its mind
+          S("P", TRUE, FALSE, TRUE, FALSE, TRUE, "drift"),     \* our attachment, somebody edited an owned field
           S("P", TRUE, TRUE, TRUE, FALSE, TRUE, "foreign"),
           S("P", TRUE, FALSE, TRUE, TRUE, TRUE, "none"),       \* ours, drifted, pending deletion
           S("P", TRUE, TRUE, TRUE, FALSE, FALSE, "none"),      \* owned by the target but made by another decorator
@@ -88,7 +92,8 @@ Updatable(m) == m \in {"Recreate", "InPlace", "SSA"}
 \* a desired child that would not match the selector is rejected before anything is written (C04): only the
 \* claim phase, which precedes the hook, has happened.  (With a generated selector the controller adds the
 \* matching label itself; decorators have no selector.)
-Rejected(kd, pg, gs) == pg = "badlabel" /\ kd = "composite" /\ ~gs
+\* (under a generated selector the bad label is a controller-uid label with somebody else's uid)
+Rejected(kd, pg, gs) == pg = "badlabel" /\ kd = "composite"
 SyncFn0(sl, kd, m, pg, sc) ==
   LET c    == Claimed(sl, kd, sc)
       view == View(c, kd, sc)
